@@ -10,6 +10,9 @@ pub(crate) mod where_predicates_bool;
 #[cfg(feature = "Default")]
 #[allow(dead_code)]
 pub(crate) mod expr;
+#[cfg(any(feature = "Debug", feature = "Hash"))]
+#[allow(dead_code)]
+pub(crate) mod fresh;
 #[cfg(any(
     feature = "Debug",
     feature = "PartialEq",
